@@ -733,16 +733,18 @@ class Driver:
 
 def run_path(job):
     edges, seed, probes = job
+    from ..core import preload
+    preload()                       # imports are not part of the calls under test (see core.preload)
     drv = Driver(seed)
     okc = 0
     # (processor time of this worker, not wall-clock time: a busy machine must not look like a call that does not return)
     signal.signal(signal.SIGPROF, _alarm)
     for i, e in enumerate(edges):
-        signal.setitimer(signal.ITIMER_PROF, 60)
+        signal.setitimer(signal.ITIMER_PROF, 120)
         try:
             bad = drv.step(e, probes is None or probes[i])
         except Hang:
-            bad = [(None, f"{e['ret']['op']} did not return within 60 s of processor time")]
+            bad = [(None, f"{e['ret']['op']} did not return within 120 s of processor time")]
         except Exception as ex:
             bad = [(None, f"{e['ret']['op']} {e['ret']['a']}: harness could not execute the step: {type(ex).__name__}: {ex}")]
         finally:
